@@ -1,7 +1,7 @@
 (* C06 / finding F4 repaired in this tree: a flight level expressed in metres with the library's own factor
    FL_TO_METERS converts back to itself (hypothesis [conv_roundtrip] of C06_node_exact_in_metres). *)
-From Coq Require Import Reals Lra.
-From AV Require Import lib.Num model.C06_Model.
+From Coq Require Import Reals Lra PrimFloat.
+From AV Require Import lib.Num lib.FloatMath model.C06_Model.
 From Gen Require Import C06_Extracted.
 Local Open Scope R_scope.
 
@@ -16,3 +16,14 @@ Proof.
   intros a b H. unfold alt_to_fl, FL_TO_METERS, METERS_TO_FL, METERS_TO_FEET, FEET_TO_METERS. rnum. lra.
 Qed.
 Print Assumptions C06_alt_to_fl_monotone.
+
+(* ... but not in binary64 (finding FC06e): on the regenerated text, level 230 expressed in metres comes back one ulp
+   high, level 45 one ulp low, level 100 survives; the regenerated FL_TO_METERS is the double the Props theorem uses *)
+Theorem C06_fl_roundtrip_binary64_refuted :
+  PrimFloat.ltb 230 (@alt_to_fl FNum (PrimFloat.mul 230 (@FL_TO_METERS FNum))) = true /\
+  PrimFloat.ltb (@alt_to_fl FNum (PrimFloat.mul 45 (@FL_TO_METERS FNum))) 45 = true /\
+  PrimFloat.eqb (@alt_to_fl FNum (PrimFloat.mul 100 (@FL_TO_METERS FNum))) 100 = true /\
+  @FL_TO_METERS FNum = 0x1.e7ae147ae147bp+4%float /\
+  (forall a, @alt_to_fl FNum a = @alt_to_fl_div FNum 0x1.e7ae147ae147bp+4%float a).
+Proof. repeat split; vm_compute; reflexivity. Qed.
+Print Assumptions C06_fl_roundtrip_binary64_refuted.
